@@ -315,12 +315,15 @@ def check_ts_history(variant, ts, vals, tend, reinit):
                     > 1e-12:
                 bad.append(("running-mean", pts[:], t.weighted_mean(),
                             float(integ / span)))
-        # an earlier timestamp is rejected and changes nothing
+        # an earlier timestamp is rejected and changes nothing - neither what
+        # is reported now nor what is reported after further observations
         before = ts_getters(t)
         for early in (ts[-1] - 0.5, ts[0] - 1, math.nan):
             c = copy.deepcopy(t)
+            twin = copy.deepcopy(t) if (early == ts[-1] - 0.5
+                                        and len(ts) <= 3) else None
             try:
-                feed_t(c, variant, early, 1)
+                feed_t(c, variant, early, 1000)
                 bad.append(("earlier-timestamp-accepted", ts, early))
             except ValueError:
                 pass
@@ -329,6 +332,23 @@ def check_ts_history(variant, ts, vals, tend, reinit):
                             type(ex).__name__))
             if not all(same(x, y) for x, y in zip(before, ts_getters(c))):
                 bad.append(("rejected-timestamp-changed-state", ts, early))
+            if early != ts[-1] - 0.5 or len(ts) > 3:
+                continue          # the continuation for one rejection only
+            try:
+                for obj in (c, twin):
+                    feed_t(obj, variant, ts[-1] + 2, 5)
+                    if variant == "duration":
+                        from pydsol.core.units import Duration
+                        obj.end_observations(Duration(float(ts[-1] + 3), "s"))
+                    else:
+                        obj.end_observations(ts[-1] + 3)
+                if not all(same(x, y) for x, y in zip(ts_getters(twin),
+                                                      ts_getters(c))):
+                    bad.append(("rejected-timestamp-changed-later-results",
+                                ts, early, ts_getters(c), ts_getters(twin)))
+            except Exception as ex:  # noqa
+                bad.append(("continuation-after-rejection-raised", ts, early,
+                            type(ex).__name__))
         c = copy.deepcopy(t)
         try:
             c.end_observations(ts[-1] - 0.5)
